@@ -102,7 +102,7 @@ PLAN = {
     "C07": dict(
         title="Activations: defined function, exact derivative, total on finite floats",
         level="proof",
-        verus=["C07_activations.rs"],
+        verus=["C07_activations.rs", "C07_softmax.rs"],
         kani=True,
         undecided_clauses=[
             "soft-max shift invariance: not decided (under rounding (v+c)-max(v+c) need not equal v-max(v); the subtraction of the maximum "
@@ -309,7 +309,7 @@ MANIFEST_TEXT = {
              "proves, for any element of any shape, that both rank copies of each forward/backward closure compute one documented formula "
              "(backward = textbook derivative of forward). Soft-max is bounded in vector length.",
         note="libm contracts (F2) assumed; F1 uninterpreted floats in Verus; derivative table is mathematics (F3); iterator chains "
-             "covered for singleton/small shapes only; soft-max bounded n = 2; shift invariance under rounding undecided.",
+             "covered for singleton/small shapes only; soft-max: the formula (shifted exponentials over their in-order sum) is proved for every length in Verus (unit softmax.forward), its value claims are bounded (n = 2); shift invariance under rounding undecided.",
     ),
     "C09": dict(
         category="proof",
